@@ -81,13 +81,19 @@ def gen_session(rng, n_ops):
             checks.append((i, "KeyError"))
         elif r < 0.36:
             t = rng.choice(["x.A", "x.A", "uima.tcas.Annotation", "x.P"])
+            # one id space: some structures bring their own (high, pairwise distinct) id and keep it, the others get theirs from
+            # the CAS - through whichever handle they are added, the generated ids must come from ONE counter (strictly increasing
+            # in the order of the adds)
+            xid = (10000 + 7 * len(fs) if rng.random() < 0.25 else None)
             if t == "x.P":
-                l = sb.fs_new(ts, t, {}); fs[l] = {"type": t, "b": None, "e": None, "view": None}
+                l = sb.fs_new(ts, t, {}, xid=xid); fs[l] = {"type": t, "b": None, "e": None, "view": None}
             else:
                 b = rng.randint(0, 6); e = rng.randint(b, 8)
-                l = sb.fs_new(ts, t, {"begin": b, "end": e}); fs[l] = {"type": t, "b": b, "e": e, "view": None}
+                l = sb.fs_new(ts, t, {"begin": b, "end": e}, xid=xid); fs[l] = {"type": t, "b": b, "e": e, "view": None}
             sb.op(op="cas.add", h=h, fs=l)
             st["bag"].append(l); fs[l]["view"] = v
+            i = sb.op(op="fs.slots", fs=l)
+            checks.append((i, ("kept", xid) if xid is not None else ("generated",)))
         elif r < 0.42:
             cand = [l for l in fs if l not in st["bag"] and fs[l]["type"] in ("x.A", "uima.tcas.Annotation", "x.Doc")
                     and fs[l]["view"] is not None]
@@ -174,10 +180,17 @@ def evaluate(ctx, out, sess):
             if d is not None:
                 out.disagreements.append({"scenario": sc, "op_index": d, "impl": io[d] if d < len(io) else None,
                                           "model": model[si][d] if model[si] and d < len(model[si]) else None})
+        last_gen = None
         for (i, exp) in checks:
             out.evaluations += 1
             got = io[i]
-            if exp == "ok":
+            if exp[0] == "kept":
+                ok = "ok" in got and got["ok"].get("%xid") == exp[1]
+            elif exp[0] == "generated":
+                g_ = got.get("ok", {}).get("%xid") if isinstance(got.get("ok"), dict) else None
+                ok = isinstance(g_, int) and (last_gen is None or g_ > last_gen) and g_ < 10000
+                last_gen = g_ if isinstance(g_, int) else last_gen
+            elif exp == "ok":
                 ok = "ok" in got
             elif isinstance(exp, str):
                 ok = got.get("err") == exp
@@ -201,7 +214,7 @@ def evaluate(ctx, out, sess):
 def run(ctx, out, budget):
     out.rule = ("interleavings of create_view / get_view (also failing ones) / add (own, already-indexed-elsewhere and foreign-typed "
                 "structures) / remove / sofa setters (text incl. None and astral, mime, uri, byte array) / document annotation / "
-                "covered text over up to 4 views and many live handles, lenient and strict roots; every sofa field, select_all and "
+                "covered text over up to 4 views and many live handles, lenient and strict roots; structures with kept (high) and generated ids added through any handle: generated ids strictly increase in the order of the adds; every sofa field, select_all and "
                 "leniency is read through every live handle of the view. Non-trivial = distinct sessions with >= 2 views and >= 3 handles.")
     rng = ctx.rng(0)
     n = bud(budget, 250, 24000)
